@@ -16,7 +16,7 @@ N6  a conditional expression that is the whole value of an assignment to a plain
     spelled with statements: `t = A if c else B` -> `if c: t = A else: t = B`;
     `return A if c else B` -> `if c: return A` followed by `return B` (so the CFG carries the guard).
 N9  guard-clause form: when an `if` branch and the statements after it both always leave (return / raise), the
-    shorter alternative is the guarded branch (`if ok: <long>; return x` / `raise E` == `if not ok: raise E` / <long>).
+    shorter alternative is the guarded branch, ties go to the un-negated test (`if ok: <long>; return x` / `raise E` == `if not ok: raise E` / <long>).
 N8  keyword arguments of a call are ordered by name (no `**` splat present): evaluation order of pure
     argument expressions is irrelevant to every rule.
 
@@ -230,7 +230,8 @@ def _structural(fn) -> int:
                     if not s.orelse and _ends_in_jump(s.body) and i + 1 < len(stmts) and _ends_in_jump(stmts[i + 1:]) \
                             and not isinstance(owner, (ast.For, ast.AsyncFor, ast.While, ast.Try, ast.With, ast.AsyncWith)):
                         tail = stmts[i + 1:]
-                        if _size(s.body) > _size(tail) and not any(isinstance(x, (ast.FunctionDef, ast.AsyncFunctionDef, ast.ClassDef)) for x in tail):
+                        neg = isinstance(s.test, ast.UnaryOp) and isinstance(s.test.op, ast.Not)
+                        if (_size(s.body) > _size(tail) or (_size(s.body) == _size(tail) and neg)) and not any(isinstance(x, (ast.FunctionDef, ast.AsyncFunctionDef, ast.ClassDef)) for x in tail):
                             body = s.body
                             s.test = s.test.operand if isinstance(s.test, ast.UnaryOp) and isinstance(s.test.op, ast.Not) else \
                                 ast.copy_location(ast.UnaryOp(op=ast.Not(), operand=s.test), s.test)
